@@ -336,6 +336,15 @@ impl<'b, 'a> BodyV<'b, 'a> {
 
 impl<'ast, 'b, 'a> Visit<'ast> for BodyV<'b, 'a> {
     fn visit_item(&mut self, _: &'ast Item) {}
+    fn visit_macro(&mut self, m: &'ast Macro) {
+        // the expanded crate should contain no macro calls except the compiler built-ins below;
+        // anything else could hide calls from the graph: fail closed
+        let n = last_seg(&m.path);
+        if !["format_args", "const_format_args", "stringify", "concat", "line", "file", "column", "cfg", "module_path"].contains(&n.as_str()) {
+            let cur = self.b.fns[self.cur].name.clone();
+            self.unresolved.push(format!("macro: unexpanded macro `{n}!` in {cur}"));
+        }
+    }
     fn visit_expr_method_call(&mut self, m: &'ast ExprMethodCall) {
         let name = m.method.to_string();
         if !self.b.fns[self.cur].method_calls.contains(&name) {
@@ -809,7 +818,12 @@ pub fn extract(c: &Crate, items: &Items, raw: &Raw) -> Graph {
     if !b.fns.iter().any(|f| f.name == "Context::do_collection") {
         unclassified.push("Context::do_collection not found".into());
     }
-    let _ = (free_nodes, impl_nodes, unresolved);
+    for u in &unresolved {
+        if let Some(m) = u.strip_prefix("macro: ") {
+            unclassified.push(m.to_string());
+        }
+    }
+    let _ = (free_nodes, impl_nodes);
     // Closure certificates (checked, not trusted, by the Lean side: `closedB`, roots ⊆ set).
     // The root rule mirrors `GcArena.CallGraphDefs.callbackRoots`.
     let ctx_new: Vec<usize> = b.fns.iter().enumerate().filter(|(_, f)| f.name == "Context::new").map(|(i, _)| i).collect();
